@@ -2,12 +2,14 @@ package scen
 
 import (
 	"bytes"
+	crand "crypto/rand"
 	stdtls "crypto/tls"
 	"fmt"
 	"sort"
 
 	tls "github.com/refraction-networking/utls"
 	"github.com/refraction-networking/utls/zz_verif/simnet"
+	"github.com/refraction-networking/utls/zz_verif/simrand"
 	"github.com/refraction-networking/utls/zz_verif/simrt"
 	"github.com/refraction-networking/utls/zz_verif/wire"
 )
@@ -289,6 +291,16 @@ func runC03(c *Ctx) {
 	omit := true
 	peer := ch.Pick(2, "peer")
 	srvMax := []uint16{tls.VersionTLS13, tls.VersionTLS12}[ch.Pick(2, "srvmax")]
+	cfgVers := 0
+	if ch.Bool(35, "cfg-vers?") {
+		cfgVers = 1 + ch.Pick(5, "cfg-vers")
+	}
+	cfgExtra := ch.Bool(20, "cfg-extra")
+	sharedCfg := ch.Bool(20, "shared-cfg")
+	randFail := int64(0)
+	if ch.Bool(25, "ambient-rand-fault") {
+		randFail = int64(1 + ch.Pick(6, "rand-fail-at"))
+	}
 	w := c.NewWorld(simrt.Config{})
 	cache := tls.NewLRUClientSessionCache(8)
 	mk := func() *tls.Config {
@@ -296,7 +308,35 @@ func runC03(c *Ctx) {
 		if history {
 			cfg.ClientSessionCache = cache
 		}
+		// fields the caller's Config may already carry; a predefined parrot overrides all of them
+		switch cfgVers {
+		case 1:
+			cfg.MinVersion, cfg.MaxVersion = tls.VersionTLS10, tls.VersionTLS11
+		case 2:
+			cfg.MinVersion, cfg.MaxVersion = tls.VersionTLS10, tls.VersionTLS10
+		case 3:
+			cfg.MinVersion, cfg.MaxVersion = tls.VersionTLS12, tls.VersionTLS12
+		case 4:
+			cfg.MinVersion, cfg.MaxVersion = tls.VersionTLS13, tls.VersionTLS13
+		case 5:
+			cfg.MaxVersion = tls.VersionTLS11
+		}
+		if cfgExtra {
+			cfg.NextProtos = []string{"verif/1"}
+			cfg.CipherSuites = []uint16{tls.TLS_ECDHE_ECDSA_WITH_AES_128_GCM_SHA256}
+			cfg.CurvePreferences = []tls.CurveID{tls.CurveP521}
+		}
 		return cfg
+	}
+	var shared *tls.Config
+	if sharedCfg {
+		shared = mk()
+		// an earlier connection of another fingerprint used the same Config value
+		pol := AllParrots[ch.Pick(len(AllParrots), "polluter")]
+		RunConn(c, w, &ConnSpec{Name: "polluter", ID: pol.ID, CCfg: shared, Peer: peer,
+			SCfg:   &tls.Config{Certificates: []tls.Certificate{Cert("ecdsa").U, Cert("rsa").U}},
+			StdCfg: &stdtls.Config{Certificates: []stdtls.Certificate{Cert("ecdsa").S, Cert("rsa").S}, MinVersion: stdtls.VersionTLS10}, Payload: [][]byte{[]byte("p")}})
+		c.Fault("shared-config", 1)
 	}
 	scfg := &tls.Config{Certificates: []tls.Certificate{Cert("ecdsa").U, Cert("rsa").U}, MaxVersion: srvMax}
 	stdcfg := &stdtls.Config{Certificates: []stdtls.Certificate{Cert("ecdsa").S, Cert("rsa").S}, MaxVersion: srvMax, MinVersion: stdtls.VersionTLS10}
@@ -310,14 +350,33 @@ func runC03(c *Ctx) {
 		return
 	}
 	shuf := isShuffling(idi)
-	c.R.Class = fmt.Sprintf("%s sn=%q/%d hrr=%v hist=%v", idi.Name, sn[:min(len(sn), 12)], len(sn), forceHRR, history)
+	c.R.Class = fmt.Sprintf("%s sn=%q/%d hrr=%v hist=%v cfg=%d/%v/%v rf=%d", idi.Name, sn[:min(len(sn), 12)], len(sn), forceHRR, history, cfgVers, cfgExtra, sharedCfg, randFail)
 	nconn := 1
 	if history {
 		nconn = 2
 	}
 	for i := 0; i < nconn && c.R.Violation == nil; i++ {
-		sp := &ConnSpec{Name: fmt.Sprintf("c%d", i), ID: idi.ID, CCfg: mk(), Peer: peer, SCfg: scfg, StdCfg: stdcfg, Payload: [][]byte{[]byte("x")},
+		ccfg := shared
+		if ccfg == nil {
+			ccfg = mk()
+		}
+		sp := &ConnSpec{Name: fmt.Sprintf("c%d", i), ID: idi.ID, CCfg: ccfg, Peer: peer, SCfg: scfg, StdCfg: stdcfg, Payload: [][]byte{[]byte("x")},
 			Setup: func(l *simnet.Link) { l.Frag = ch.Bool(30, "frag") }}
+		if randFail > 0 {
+			// the assignable crypto/rand.Reader fails once while the hello is being built: an error
+			// is acceptable, a hello that differs from the spec is not
+			sp.Prep = func(u *tls.UConn) error {
+				f := &simrand.Faulty{Under: crand.Reader, FailAt: randFail}
+				old := crand.Reader
+				crand.Reader = f
+				err := u.BuildHandshakeState()
+				crand.Reader = old
+				if f.Failed {
+					c.Fault("randfail", 1)
+				}
+				return err
+			}
+		}
 		o := RunConn(c, w, sp)
 		obs := ObserveHellos(o.Link)
 		if obs.CHErr != nil {
@@ -325,6 +384,10 @@ func runC03(c *Ctx) {
 			break
 		}
 		if len(obs.CH) == 0 {
+			if randFail > 0 && o.BuildErr != nil {
+				c.Probe("build-error-under-randfail") // an error instead of a hello is the allowed outcome
+				break
+			}
 			c.R.Harness = "no hello on the wire: " + o.Describe()
 			break
 		}
